@@ -86,12 +86,29 @@ def c12_evidence_extra(agg: dict) -> dict:
 def c12_sweep(agg, tier):
     """Directed fault sweep: every write-site reached by the random phase gets every fault variant, aimed right
     before and right after the write, on up to `per_site` programs that reached it."""
+    import hashlib
+
     per_site = 1 if tier == "quick" else 3
+    ops_per_site = 6 if tier == "quick" else 24
     tasks = []
     for site in sorted(agg.get("site_hits", {})):
-        for seed in agg["site_hits"][site][:per_site]:
+        for j, seed in enumerate(agg["site_hits"][site][:3]):
             for variant in runner.VARIANTS:
-                tasks.append((seed, list(site), variant))
+                # the schedule variants depend on what the OTHER client happens to do (its operands may be copies of
+                # the first client's, its parameters may make the operation trivial), so they get a second program
+                if variant.startswith("duet"):
+                    continue
+                if j < per_site or (j == 1 and variant.startswith("switch")):
+                    tasks.append((seed, list(site), variant))
+        # duets: a site inside a helper is reached by many operations, and whether state leaking between two calls
+        # shows depends on the operation that is doubled -- every (site, operation) pair seen in the random phase is
+        # a candidate; a fixed pseudo-random subset of them per site is run (all of them up to the cap)
+        ops = agg.get("site_ops", {}).get(site, {})
+        order = sorted(ops, key=lambda o_: hashlib.blake2b(f"{site}|{o_}".encode(), digest_size=8).digest())
+        for j, op_ in enumerate(order[:ops_per_site]):
+            seed = ops[op_][1]
+            for variant in (("duet_pre", "duet_post") if j < ops_per_site // 2 or tier != "quick" else ("duet_post",)):
+                tasks.append((seed, list(site), variant, op_))
     return tasks
 
 
@@ -105,11 +122,15 @@ PROFILES["C12"] = Profile(
           "arity, outcome class), plus the realised schedule for PREEMPT); non-trivial = at least two executed "
           "steps touch a common pool object"),
     assumptions=[
-        "faults and pre-emptions land on geometer line boundaries only (sys.monitoring LINE events), not inside "
-        "numpy C calls or between bytecodes of one line",
+        "faults and pre-emptions land on geometer line boundaries only (sys.monitoring LINE events at the bytecode "
+        "offset that begins a source line; CPython's additional mid-line events, about 5 % of the raw events, are "
+        "ignored because their occurrence depends on the interpreter's warm-up state), not inside numpy C calls or "
+        "between bytecodes of one line",
         "Tensor.__setitem__, attribute assignment and TensorDiagram.add_node/add_edge are mutators by contract and "
         "are not generated",
-        "bitwise answer comparison; differences within 8 ulp with unchanged state are counted as numeric_noise",
+        "bitwise answer comparison; differences within 8 ulp, or within 64 eps of the largest entry of the same "
+        "array, with unchanged state are counted as numeric_noise (numpy's blocked kernels round differently for "
+        "differently aligned temporaries); arrays above 256 KiB are compared by digest only",
         "sampling, not enumeration: a clean batch is evidence, not proof",
     ],
     evidence_extra=c12_evidence_extra, sweep=c12_sweep,
